@@ -14,7 +14,9 @@ import (
 	"net"
 	"net/http"
 	"net/http/httptest"
+	"net/netip"
 	"net/url"
+	"os"
 	"sort"
 	"strings"
 	"sync"
@@ -52,6 +54,10 @@ type stand struct {
 	base    string // path of the target URL
 	h       http.Handler
 	tcpAddr string
+	// svc is true for the stand that is a real websvc.Service (websvc.New +
+	// Start): the handler is mounted by the production code and cannot be
+	// wrapped, so the view is reconstructed with http.ReadRequest.
+	svc bool
 
 	mu    sync.Mutex
 	views []view
@@ -63,6 +69,57 @@ type world struct {
 	backend *httptest.Server
 	stands  []*stand
 	ua      string
+	svc     *websvc.Service
+
+	nextID int
+	// recent holds the last cases with their outcomes, by ID; late holds
+	// backend records that arrived after their case had been evaluated.
+	recent map[int]*pending
+	late   []seen
+}
+
+// freePort returns a currently free TCP port outside the ephemeral range.
+func freePort() (ap netip.AddrPort) {
+	for i := 0; i < 2000; i++ {
+		port := 20000 + (os.Getpid()*31+i*7919)%12000
+		l, err := net.Listen("tcp", fmt.Sprintf("127.0.0.1:%d", port))
+		if err != nil {
+			continue
+		}
+		_ = l.Close()
+
+		return netip.AddrPortFrom(netip.MustParseAddr("127.0.0.1"), uint16(port))
+	}
+	panic("no free port")
+}
+
+// startService adds a stand served by websvc.New(...).Start, the production
+// mounting of the linked-IP handler.
+func (w *world) startService() {
+	u, err := url.Parse(w.backend.URL)
+	hlib.Must(err)
+	ap := freePort()
+	w.svc = websvc.New(&websvc.Config{
+		LinkedIP:      &websvc.LinkedIPServer{TargetURL: u, Bind: []*websvc.BindData{{Address: ap}}},
+		StaticContent: http.NotFoundHandler(),
+		DNSCheck:      http.NotFoundHandler(),
+		ErrColl:       errColl{},
+		Timeout:       10 * time.Second,
+	})
+	hlib.Must(w.svc.Start(context.Background()))
+	for i := 0; ; i++ {
+		conn, err := net.Dial("tcp", ap.String())
+		if err == nil {
+			_ = conn.Close()
+
+			break
+		}
+		if i > 500 {
+			panic("websvc linked-ip server did not come up: " + err.Error())
+		}
+		time.Sleep(10 * time.Millisecond)
+	}
+	w.stands = append(w.stands, &stand{base: "", tcpAddr: ap.String(), svc: true})
 }
 
 func newWorld() (w *world) {
@@ -129,13 +186,21 @@ type reqCase struct {
 	Remote string  `json:"remote,omitempty"` // in-process only
 	WantIP string  `json:"want_ip,omitempty"`
 	BadRem bool    `json:"bad_remote,omitempty"`
+	// ID is put on the wire as X-Verif-Case, so that every record of the
+	// backend can be attributed to the request that caused it.
+	ID int `json:"id,omitempty"`
 }
+
+const caseHdr = "X-Verif-Case"
 
 func (c *reqCase) raw() []byte {
 	var b bytes.Buffer
 	fmt.Fprintf(&b, "%s %s HTTP/1.1\r\nHost: link-ip.example\r\n", c.Method, c.Target)
 	for _, kv := range c.Hdrs {
 		fmt.Fprintf(&b, "%s: %s\r\n", kv.K, kv.V)
+	}
+	if c.ID != 0 {
+		fmt.Fprintf(&b, "%s: %d\r\n", caseHdr, c.ID)
 	}
 	if c.Method == "POST" || c.Method == "PUT" || c.Method == "PATCH" {
 		b.WriteString("Content-Length: 0\r\n")
@@ -157,24 +222,37 @@ func (c *reqCase) canon() string {
 
 // outcome is the observable result of one case on the real code.
 type outcome struct {
-	parsed  bool // the handler was reached
-	v       view
-	status  int
-	body    string
-	recs    []seen
+	parsed   bool // the handler was reached
+	v        view
+	status   int
+	body     string
+	recs     []seen
 	panicked any
-	ioErr   error
+	ioErr    error
 }
 
 func (w *world) run(c *reqCase) (o outcome) {
 	st := w.stands[c.Stand]
-	w.takeRecs()
+	w.late = append(w.late, w.takeRecs()...)
 	st.takeViews()
+	w.nextID++
+	c.ID = w.nextID
+	var svcView *view
+	if st.svc && !c.TCP {
+		panic("the real-service stand is reachable over TCP only")
+	}
 	if c.TCP {
 		conn, err := net.Dial("tcp", st.tcpAddr)
 		hlib.Must(err)
 		defer conn.Close()
 		c.WantIP = conn.LocalAddr().(*net.TCPAddr).IP.String()
+		if st.svc {
+			// "OPTIONS *" is answered by net/http's server itself (200, empty)
+			// and never reaches any handler, on every stand.
+			if req, rerr := http.ReadRequest(bufio.NewReader(bytes.NewReader(c.raw()))); rerr == nil && !(req.Method == "OPTIONS" && req.RequestURI == "*") {
+				svcView = &view{Method: req.Method, Path: req.URL.Path, Remote: conn.LocalAddr().String(), Hdr: req.Header}
+			}
+		}
 		_, err = conn.Write(c.raw())
 		hlib.Must(err)
 		_ = conn.SetReadDeadline(time.Now().Add(10 * time.Second))
@@ -205,9 +283,45 @@ func (w *world) run(c *reqCase) (o outcome) {
 	if len(vs) > 0 {
 		o.parsed, o.v = true, vs[0]
 	}
-	o.recs = w.takeRecs()
+	if svcView != nil && o.ioErr == nil {
+		o.parsed, o.v = true, *svcView
+	}
+	for _, rec := range w.takeRecs() {
+		if rec.Hdr.Get(caseHdr) == fmt.Sprint(c.ID) {
+			o.recs = append(o.recs, rec)
+		} else {
+			w.late = append(w.late, rec)
+		}
+	}
 
 	return o
+}
+
+// settleLate evaluates backend records that turned up after their own case
+// had been evaluated (the proxy's transport may send an idempotent request
+// again after a connection error): the oracle is run on the record with its
+// own case.  A record for a case that was answered locally is a violation like
+// any other forwarded request.
+func (w *world) settleLate(r *hlib.Result) {
+	late := w.late
+	w.late = nil
+	for _, rec := range late {
+		r.Count("backend.late-record")
+		var id int
+		_, _ = fmt.Sscan(rec.Hdr.Get(caseHdr), &id)
+		p := w.recent[id]
+		if p == nil {
+			r.Count("backend.late-record.case-unknown")
+
+			continue
+		}
+		if len(p.o.recs) > 0 {
+			r.Count("backend.late-record.duplicate-delivery")
+		}
+		o := p.o
+		o.recs = []seen{rec}
+		w.oracle(r, p.c, o)
+	}
 }
 
 // ----- canonical forms shared with the model driver -----
@@ -264,9 +378,22 @@ func showHdrs(h http.Header) string {
 	return strings.Join(items, ";")
 }
 
-func (w *world) modelLine(c *reqCase, v view) string {
+// modelLine is the op line for one case.  For an origin-form request target
+// the model is given the raw target (op wreq) and derives the path itself, so
+// that net/http's percent-decoding, query cut and refusals are inside the
+// comparison; for the other forms it is given the parsed path (op req).
+func (w *world) modelLine(c *reqCase, o outcome) string {
 	var b strings.Builder
-	fmt.Fprintf(&b, "req %s %s %s %s %s", hx(w.stands[c.Stand].base), hx(w.ua), hx(v.Method), hx(v.Path), hx(v.Remote))
+	v := o.v
+	if strings.HasPrefix(c.Target, "/") {
+		method, remote := c.Method, c.Remote
+		if o.parsed {
+			method, remote = v.Method, v.Remote
+		}
+		fmt.Fprintf(&b, "wreq %s %s %s %s %s", hx(w.stands[c.Stand].base), hx(w.ua), hx(method), hx(c.Target), hx(remote))
+	} else {
+		fmt.Fprintf(&b, "req %s %s %s %s %s", hx(w.stands[c.Stand].base), hx(w.ua), hx(v.Method), hx(v.Path), hx(v.Remote))
+	}
 	names := make([]string, 0, len(v.Hdr))
 	for n := range v.Hdr {
 		names = append(names, n)
@@ -291,10 +418,8 @@ func isRobots(o outcome) bool {
 
 func realLine(o outcome) string {
 	switch {
-	case len(o.recs) == 1:
+	case len(o.recs) >= 1:
 		return "proxy " + hx(o.recs[0].Path) + " " + showHdrs(o.recs[0].Hdr)
-	case len(o.recs) > 1:
-		return fmt.Sprintf("backend-contacted-%d-times", len(o.recs))
 	case o.status == 404:
 		return "404"
 	case isRobots(o):
@@ -433,7 +558,14 @@ func (w *world) oracle(r *hlib.Result, c *reqCase, o outcome) {
 		return
 	}
 	if len(o.recs) > 1 {
-		r.Violate("backend-contacted-twice", "one request caused several backend requests", replay)
+		// Not forbidden by the property (the transport may repeat an idempotent
+		// request); every delivery is checked.
+		r.Count("backend.duplicate-delivery")
+		for _, rec := range o.recs[1:] {
+			o2 := o
+			o2.recs = []seen{rec}
+			w.oracle(r, c, o2)
+		}
 	}
 	b := o.recs[0]
 	st := w.stands[c.Stand]
@@ -451,9 +583,19 @@ func (w *world) oracle(r *hlib.Result, c *reqCase, o outcome) {
 	if u, err := url.ParseRequestURI(b.URI); err != nil || u.Path != b.Path {
 		r.Violate("backend-uri-mismatch", fmt.Sprintf("backend request URI %q does not decode to %q", b.URI, b.Path), replay)
 	}
+	// No segment of the raw request line may decode to a dot segment either (a
+	// backend may decode before or after it normalises).
+	rawPath, _, _ := strings.Cut(b.URI, "?")
+	for _, seg := range strings.Split(rawPath, "/") {
+		if d, err := url.PathUnescape(seg); err == nil && (d == "." || d == ".." || strings.HasPrefix(d, "../") || strings.HasSuffix(d, "/..") || strings.Contains(d, "/../")) {
+			r.Violate("forwarded-path-escapes-prefix:encoded-dot-segment", fmt.Sprintf("backend request line %q has the segment %q, which decodes to a dot segment", b.URI, seg), replay)
+		}
+	}
 	// Client address.
 	got := b.Hdr["X-Connecting-Ip"]
 	switch {
+	case c.BadRem:
+		r.Violate("forwarded-without-peer-address", fmt.Sprintf("peer address %q has no usable host part, but the request was forwarded with X-Connecting-IP = %q", c.Remote, got), replay)
 	case len(got) == 0:
 		r.Violate("client-ip-header-missing", fmt.Sprintf("forwarded request carries no X-Connecting-IP (peer %s)", c.WantIP), replay)
 	case len(got) != 1 || got[0] != c.WantIP:
@@ -493,6 +635,49 @@ var segs = []string{"dev1234", "0123456789", "a", "b", "example.com", "status", 
 
 func pick(rng *rand.Rand, xs []string) string { return xs[rng.IntN(len(xs))] }
 
+// nearMiss returns strings at a small distance from the keyword kw: the class
+// of inputs that a comparison weakened to a prefix, suffix, substring,
+// case-insensitive or trimmed match would wrongly accept.  raw is true for
+// strings put on the wire as part of a request target (percent-escapes are
+// allowed there).
+func nearMiss(kw string, raw bool) (out []string) {
+	if kw == "" {
+		return []string{"x", ".", "%20"}
+	}
+	up, low := strings.ToUpper(kw), strings.ToLower(kw)
+	out = []string{kw + "x", "x" + kw, kw[:len(kw)-1], kw[1:], up, low, strings.ToUpper(kw[:1]) + kw[1:],
+		kw[:len(kw)-1] + strings.ToUpper(kw[len(kw)-1:]), kw + kw, kw + ".", "." + kw, kw + "-", kw + "_", kw + "1"}
+	if raw {
+		out = append(out, kw+"%20", "%20"+kw, kw+"%00", kw+"%09", kw+"%2F", kw+"%2Fx", "x%2F"+kw, kw+";x", kw+"%3F",
+			fmt.Sprintf("%%%02x", kw[0])+kw[1:])
+	}
+
+	return out
+}
+
+func init() {
+	for _, kw := range []string{"linkip", "ddns"} {
+		firstSegs = append(firstSegs, nearMiss(kw, true)...)
+	}
+	statusNear = nearMiss("status", true)
+	segs = append(segs, statusNear...)
+	for _, kw := range []string{"GET", "POST"} {
+		oddMethods = append(oddMethods, nearMiss(kw, false)...)
+	}
+	// Only tokens are methods (RFC 9110); everything else is refused by
+	// net/http before the handler, which is generated on purpose, but rarely.
+	robotsNear = append([]string{"/robots.txt", "/robots.txt", "/robots.txt/", "//robots.txt", "/x/robots.txt", "/robots.txt/x"},
+		func() (xs []string) {
+			for _, v := range nearMiss("robots.txt", true) {
+				xs = append(xs, "/"+v)
+			}
+
+			return xs
+		}()...)
+}
+
+var statusNear, robotsNear []string
+
 func genTarget(rng *rand.Rand) (method, target string) {
 	method = pick(rng, methods)
 	var parts []string
@@ -511,7 +696,12 @@ func genTarget(rng *rand.Rand) (method, target string) {
 		}
 		for k := rng.IntN(3); k > 0; k-- {
 			i := rng.IntN(len(parts))
-			switch rng.IntN(7) {
+			switch rng.IntN(9) {
+			case 7:
+				// a near miss of the keyword (or identifier) in this position
+				parts[i] = pick(rng, nearMiss(parts[i], true))
+			case 8:
+				method = pick(rng, nearMiss(method, false))
 			case 0, 1, 2:
 				parts[i] = pick(rng, segs)
 			case 3:
@@ -533,6 +723,10 @@ func genTarget(rng *rand.Rand) (method, target string) {
 		}
 	default:
 		// special targets
+		if rng.IntN(3) == 0 {
+			return pick(rng, append(methods, oddMethods...)), pick(rng, robotsNear)
+		}
+
 		return pick(rng, append(methods, oddMethods...)), pick(rng, []string{"/", "/robots.txt", "*", "", "/linkip", "/ddns", "/linkip/",
 			"//linkip/a/b", "/robots.txt/", "linkip/a/b", "/linkip/a/b/status/", "/linkip/a/b/status/more/stuff",
 			"http://evil.example/linkip/a/b", "http://evil.example", "http://evil.example/linkip/../x",
@@ -650,6 +844,8 @@ type pending struct {
 
 func classify(r *hlib.Result, c *reqCase, o outcome) (nontrivial bool) {
 	switch {
+	case !o.parsed && o.status == 200 && c.Method == "OPTIONS" && c.Target == "*":
+		r.Count("req.options-star-answered-by-net/http")
 	case !o.parsed:
 		r.Count("req.rejected-by-net/http")
 	case len(o.recs) > 0:
@@ -706,7 +902,13 @@ func classify(r *hlib.Result, c *reqCase, o outcome) (nontrivial bool) {
 		r.Count("mode.in-process")
 	}
 	if c.Stand != 0 {
-		r.Count("target.with-base-path")
+		r.Count("target.with-base-path-or-real-service")
+	}
+	if c.Stand == 3 {
+		r.Count("target.real-websvc-service")
+		if len(o.recs) > 0 {
+			r.Count("target.real-websvc-service.forwarded")
+		}
 	}
 
 	return nontrivial
@@ -716,8 +918,11 @@ func (w *world) flush(r *hlib.Result, m *hlib.Model, batch []pending) {
 	var lines []string
 	var idx []int
 	for i, p := range batch {
-		if p.o.parsed && p.o.panicked == nil {
-			lines = append(lines, w.modelLine(p.c, p.o.v))
+		if p.o.panicked != nil || p.o.ioErr != nil {
+			continue
+		}
+		if p.o.parsed || strings.HasPrefix(p.c.Target, "/") {
+			lines = append(lines, w.modelLine(p.c, p.o))
 			idx = append(idx, i)
 		}
 	}
@@ -728,6 +933,18 @@ func (w *world) flush(r *hlib.Result, m *hlib.Model, batch []pending) {
 	for k, i := range idx {
 		p := batch[i]
 		real := realLine(p.o)
+		if strings.HasPrefix(lines[k], "wreq ") {
+			r.Count("model.wire-target-op")
+		} else {
+			r.Count("model.parsed-path-op")
+		}
+		if !p.o.parsed {
+			r.Count("model.wire-target-op.rejected-by-net/http")
+			real = "rejected"
+			if p.o.status != 400 {
+				real = fmt.Sprintf("rejected-with-status-%d", p.o.status)
+			}
+		}
 		r.Traces++
 		if answers[k] != real {
 			r.Disagree("req", fmt.Sprintf("request %q: model says %q, real code %q", string(p.c.raw()), answers[k], real),
@@ -740,8 +957,16 @@ func (w *world) reqCampaign(o *hlib.Opts, r *hlib.Result, m *hlib.Model, cases [
 	var batch []pending
 	for _, c := range cases {
 		out := w.run(c)
+		if w.recent == nil {
+			w.recent = map[int]*pending{}
+		}
+		w.recent[c.ID] = &pending{c, out}
+		delete(w.recent, c.ID-5000)
 		// Property oracle first, independently of the model.
 		w.oracle(r, c, out)
+		if len(w.late) > 0 {
+			w.settleLate(r)
+		}
 		r.Case(c.canon(), classify(r, c, out))
 		if len(out.recs) > 0 {
 			r.Sample(map[string]any{"request": strings.SplitN(string(c.raw()), "\r\n", 2)[0], "headers": c.Hdrs, "peer": c.WantIP,
@@ -754,6 +979,208 @@ func (w *world) reqCampaign(o *hlib.Opts, r *hlib.Result, m *hlib.Model, cases [
 		}
 	}
 	w.flush(r, m, batch)
+	w.late = append(w.late, w.takeRecs()...)
+	w.settleLate(r)
+}
+
+// ----- exhaustive edit neighbourhood of the documented requests -----
+
+// edits returns every string at edit distance one from s: deletions,
+// duplications, case flips, and insertions / replacements with every element
+// of alpha (which may be longer than one byte).
+func edits(s string, alpha []string) (out []string) {
+	for i := 0; i <= len(s); i++ {
+		for _, a := range alpha {
+			out = append(out, s[:i]+a+s[i:])
+			if i < len(s) {
+				out = append(out, s[:i]+a+s[i+1:])
+			}
+		}
+		if i < len(s) {
+			out = append(out, s[:i]+s[i+1:], s[:i]+s[i:i+1]+s[i:])
+			if c := s[i]; c >= 'a' && c <= 'z' || c >= 'A' && c <= 'Z' {
+				out = append(out, s[:i]+string(c^0x20)+s[i+1:])
+			}
+		}
+	}
+
+	return out
+}
+
+type docReq struct{ method, path string }
+
+var docReqs = []docReq{{"GET", "/linkip/d1/e2"}, {"GET", "/linkip/d1/e2/status"}, {"POST", "/ddns/d1/e2/x.y"}, {"POST", "/linkip/d1/e2"}}
+
+var pathEditAlpha = []string{"/", ".", "..", "%2e", "%2E%2e", "%2F", "%2f..", "x", "?", "%", " ", "%00", "//", "/./", "/../", ";", "%20", "\\", "#", "+"}
+
+var methodEditAlpha = []string{"X", "x", "-", "T"}
+
+// editTargets is the distance-one neighbourhood of the four documented
+// requests (method and request target edited separately), plus, when n > 0, n
+// random distance-two neighbours.
+func editTargets(rng *rand.Rand, n int) (out []docReq) {
+	for _, d := range docReqs {
+		out = append(out, d)
+		for _, t := range edits(d.path, pathEditAlpha) {
+			out = append(out, docReq{d.method, t})
+		}
+		for _, m := range edits(d.method, methodEditAlpha) {
+			if m != "" {
+				out = append(out, docReq{m, d.path})
+			}
+		}
+		// the other method with every path edit that keeps the path: covered by
+		// the method swap below
+		for _, m := range []string{"GET", "POST", "HEAD", "PUT"} {
+			out = append(out, docReq{m, d.path})
+		}
+	}
+	for i := 0; i < n; i++ {
+		d := docReqs[rng.IntN(len(docReqs))]
+		e1 := edits(d.path, pathEditAlpha)
+		t := e1[rng.IntN(len(e1))]
+		e2 := edits(t, pathEditAlpha)
+		t = e2[rng.IntN(len(e2))]
+		m := d.method
+		if rng.IntN(4) == 0 {
+			m = pick(rng, []string{"GET", "POST"})
+		}
+		out = append(out, docReq{m, t})
+	}
+
+	return out
+}
+
+func editCases(rng *rand.Rand, n int) (cs []*reqCase) {
+	forged := []hdrKV{{"X-Connecting-IP", "6.6.6.6"}, {"X-Real-IP", "6.6.6.6"}, {"X-Forwarded-For", "6.6.6.6"}}
+	for _, d := range editTargets(rng, n) {
+		cs = append(cs, &reqCase{Method: d.method, Target: d.path, Hdrs: forged, Remote: "192.0.2.7:4711", WantIP: "192.0.2.7"})
+	}
+
+	return cs
+}
+
+// ----- concurrent requests from different peers (oracle only) -----
+
+// concCampaign sends requests from several peers at the same time through one
+// handler and checks that every request that reached the backend carries the
+// address of its own peer.  Requests are correlated by an X-Custom marker.
+func (w *world) concCampaign(o *hlib.Opts, r *hlib.Result, rng *rand.Rand) {
+	workers, per := 8, 1000
+	if o.Thorough() {
+		workers, per = 16, 1500
+	}
+	type want struct {
+		c       *reqCase
+		forward bool // must not be forwarded when false
+	}
+	wants := map[string]want{}
+	plans := make([][]*reqCase, workers)
+	for k := 0; k < workers; k++ {
+		for i := 0; i < per; i++ {
+			ip := fmt.Sprintf("198.18.%d.%d", k, i%250+1)
+			remote := ip + ":4711"
+			if k%4 == 3 {
+				ip = fmt.Sprintf("2001:db8:%x::%x", k, i+1)
+				remote = "[" + ip + "]:4711"
+			}
+			marker := fmt.Sprintf("c%d-%d", k, i)
+			c := &reqCase{Remote: remote, WantIP: ip}
+			forward := true
+			switch rng.IntN(6) {
+			case 0:
+				c.Method, c.Target = "GET", "/linkip/dev/enc"
+			case 1:
+				c.Method, c.Target = "GET", "/linkip/dev/enc/status"
+			case 2:
+				c.Method, c.Target = "POST", "/ddns/dev/enc/example.com"
+			case 3:
+				c.Method, c.Target = "POST", "/linkip/dev/enc"
+			case 4:
+				c.Method, c.Target, forward = "GET", "/linkip/dev/enc/other", false
+			default:
+				c.Method, c.Target, forward = "PUT", "/ddns/dev/enc/example.com", false
+			}
+			c.Hdrs = []hdrKV{{"X-Custom", marker}}
+			for _, n := range []string{"X-Connecting-IP", "X-Real-IP", "X-Forwarded-For", "CF-Connecting-IP"} {
+				if rng.IntN(2) == 0 {
+					c.Hdrs = append(c.Hdrs, hdrKV{n, "6.6.6.6"})
+				}
+			}
+			if rng.IntN(4) == 0 {
+				c.Hdrs = append(c.Hdrs, hdrKV{"Connection", "X-Connecting-IP"})
+			}
+			wants[marker] = want{c, forward}
+			plans[k] = append(plans[k], c)
+		}
+	}
+	st := w.stands[0]
+	w.takeRecs()
+	st.takeViews()
+	var wg sync.WaitGroup
+	panics := make([]any, workers)
+	for k := 0; k < workers; k++ {
+		wg.Add(1)
+		go func(k int) {
+			defer wg.Done()
+			defer func() { panics[k] = recover() }()
+			for _, c := range plans[k] {
+				req, err := http.ReadRequest(bufio.NewReader(bytes.NewReader(c.raw())))
+				hlib.Must(err)
+				req.RemoteAddr = c.Remote
+				st.h.ServeHTTP(httptest.NewRecorder(), req)
+			}
+		}(k)
+	}
+	wg.Wait()
+	st.takeViews()
+	recs := w.takeRecs()
+	for k, p := range panics {
+		if p != nil {
+			r.Violate("handler-panic", fmt.Sprintf("handler panicked under concurrent requests: %v", p), map[string]any{"worker": k})
+		}
+	}
+	seenMarker := map[string]int{}
+	for _, b := range recs {
+		if b.Hdr.Get(caseHdr) != "" {
+			w.late = append(w.late, b)
+
+			continue
+		}
+		marker := b.Hdr.Get("X-Custom")
+		wt, ok := wants[marker]
+		replay := map[string]any{"backend_saw": b, "how": fmt.Sprintf("%d goroutines, each sending %d requests with its own RemoteAddr through one linkedIPHandler", workers, per)}
+		if !ok {
+			r.Violate("backend-contacted-twice", fmt.Sprintf("backend saw a request with unknown marker %q", marker), replay)
+
+			continue
+		}
+		replay["case"], replay["raw_request"] = wt.c, string(wt.c.raw())
+		seenMarker[marker]++
+		if seenMarker[marker] > 1 {
+			r.Violate("backend-contacted-twice", "one request caused several backend requests (concurrent)", replay)
+		}
+		if !wt.forward {
+			r.Violate("forwarded-undocumented-shape:concurrent", fmt.Sprintf("backend contacted for %s %q", wt.c.Method, wt.c.Target), replay)
+		}
+		if got := b.Hdr["X-Connecting-Ip"]; len(got) != 1 || got[0] != wt.c.WantIP {
+			r.Violate("client-ip-header-wrong:concurrent", fmt.Sprintf("forwarded X-Connecting-IP = %q, peer of this request is %s", got, wt.c.WantIP), replay)
+		}
+		for _, n := range forwardingNames {
+			if vs, ok := b.Hdr[n]; ok {
+				r.Violate("forged-forwarding-header-forwarded:"+n, fmt.Sprintf("client-supplied %s: %q reached the backend (concurrent)", n, vs), replay)
+			}
+		}
+		r.Count("conc.forwarded")
+	}
+	for marker, wt := range wants {
+		r.Case("conc|"+wt.c.canon(), wt.forward)
+		if wt.forward && seenMarker[marker] == 0 {
+			r.Count("conc.documented-request-not-forwarded")
+		}
+	}
+	r.Count(fmt.Sprintf("conc.workers-%d", workers))
+	w.settleLate(r)
 }
 
 // fixedCases are always run: the documented shapes, the Lean counter-example
@@ -809,12 +1236,26 @@ func spCampaign(o *hlib.Opts, r *hlib.Result, m *hlib.Model, rng *rand.Rand) {
 		}
 		cases = append(cases, sp{method, p})
 	}
+	// The edit neighbourhood of the documented requests (decoded like net/http
+	// does), and the same edits applied to the decoded path directly.
+	nEdit2 := 20000
+	if o.Thorough() {
+		nEdit2 = 400000
+	}
+	for _, d := range editTargets(rng, nEdit2) {
+		if u, err := url.ParseRequestURI(d.path); err == nil {
+			cases = append(cases, sp{d.method, u.Path})
+		}
+		cases = append(cases, sp{d.method, d.path})
+	}
+	r.Count("sp.edit-distance-1-exhaustive")
 	// Exhaustive small scope: every path of up to k segments over a small
-	// alphabet, every method of a small set.
-	alpha := []string{"linkip", "ddns", "a", "status", ".", "..", ""}
+	// alphabet (keywords, near misses of the keywords, dot and empty segments),
+	// every method of a small set.
+	alpha := []string{"linkip", "ddns", "a", "status", ".", "..", "", "linkipx", "xddns", "statusx", "Status", "xlinkip"}
 	k := 4
 	if o.Thorough() {
-		k = 6
+		k = 5
 	}
 	var rec func(prefix []string, depth int)
 	rec = func(prefix []string, depth int) {
@@ -833,7 +1274,7 @@ func spCampaign(o *hlib.Opts, r *hlib.Result, m *hlib.Model, rng *rand.Rand) {
 		}
 	}
 	rec(nil, 0)
-	r.Count(fmt.Sprintf("sp.exhaustive-alphabet7-depth%d", k))
+	r.Count(fmt.Sprintf("sp.exhaustive-alphabet%d-depth%d", len(alpha), k))
 
 	for start := 0; start < len(cases); start += 5000 {
 		chunk := cases[start:min(start+5000, len(cases))]
@@ -955,18 +1396,39 @@ func main() {
 	defer m.Close()
 	w := newWorld()
 	defer w.backend.Close()
+	w.startService()
+	svcIdx := len(w.stands) - 1
+	defer func() { _ = w.svc.Shutdown(context.Background()) }()
 
-	w.reqCampaign(o, r, m, fixedCases())
+	fc := fixedCases()
+	for _, c := range fixedCases() {
+		if c.TCP {
+			c.Stand = svcIdx
+			fc = append(fc, c)
+		}
+	}
+	w.reqCampaign(o, r, m, fc)
 	rng := o.Rand("req")
 	n := 30000
 	if o.Thorough() {
-		n = 200000
+		n = 400000
 	}
 	cases := make([]*reqCase, n)
 	for i := range cases {
 		cases[i] = genCase(rng, len(w.stands))
+		if c := cases[i]; w.stands[c.Stand].svc {
+			c.TCP, c.Remote, c.WantIP, c.BadRem = true, "", "", false
+		}
 	}
 	w.reqCampaign(o, r, m, cases)
+	nEdit2 := 3000
+	if o.Thorough() {
+		nEdit2 = 60000
+	}
+	ec := editCases(o.Rand("edit"), nEdit2)
+	w.reqCampaign(o, r, m, ec)
+	r.Count("req.edit-distance-1-exhaustive")
+	w.concCampaign(o, r, o.Rand("conc"))
 	if o.Thorough() {
 		// Exhaustive small scope through the whole handler.
 		var ex []*reqCase
